@@ -230,8 +230,8 @@ theorem ctx_tie :
     Generated.cloneLiteral = [("fox", "c.fox"), ("req", "c.req.Clone(c.req.Context())"), ("route", "c.route"), ("scope", "c.scope"),
       ("tree", "c.tree"), ("tsr", "c.tsr")] ∧
     Generated.cloneWriterReads = ["c.w.Header", "c.w.Size", "c.w.Status", "c.w.Written"] ∧
-    Generated.cloneBufferForms = ["params := make(Params, len(*c.params))", "copy(params, *c.params)", "params = &params",
-      "tsrParams := make(Params, len(*c.tsrParams))", "copy(tsrParams, *c.tsrParams)", "tsrParams = &tsrParams"] ∧
+    Generated.cloneBufferForms = ["copy(params, *c.params)", "copy(tsrParams, *c.tsrParams)", "params := make(Params, len(*c.params))",
+      "params = &params", "tsrParams := make(Params, len(*c.tsrParams))", "tsrParams = &tsrParams"] ∧
     Generated.c_notWritten = notWritten ∧
     Generated.c_RouteHandler = RouteHandler ∧ Generated.c_NoRouteHandler = NoRouteHandler ∧ Generated.c_NoMethodHandler = NoMethodHandler ∧
     Generated.c_RedirectHandler = RedirectHandler ∧ Generated.c_OptionsHandler = OptionsHandler := by
